@@ -13,7 +13,7 @@ CHECKS = {
  "C04": ("exploration", "§3 C04", "real `sync -r` in all three directions on simulated hosts: real tokio tasks whose simulated operations complete in the scheduler's seeded order, ssh + bash + coreutils stand-in on the remote host, hostile names; post-conditions against an independent reference plan and the per-call trace",
          "The completion order of the parallel transfers and of each transfer's sub-steps (and of the remote shell children) is the scheduler's seeded choice; the trace gives per-call evidence that quick-check matches and out-of-plan files were never touched and that the source saw no mutating call. Found and repaired: newline-delimited remote lists, `mv` into an occupying directory.",
          "remote side is bash + GNU tools as the shipped commands assume; ssh reliable ordered stream; stub fidelity spot-checked against real bash"),
- "C09": ("fault_enumeration", "§3 C09", "kill of the copia process before every file-system-mutating or pipe-write call of a reference run (all k up to a cap, else seeded k), orphaned children scheduled to completion, then re-run",
+ "C09": ("fault_enumeration", "§3 C09", "kill of the copia process before every file-system-mutating or pipe-write call of a reference run (all k up to a cap, else seeded k), orphaned children scheduled to completion, then re-run (also after a same-size edit of the source; one-byte pipes so that the NUL-delimited delete / directory lists can be cut at every byte)",
          "Every sampled scenario is executed once per kill point; after each kill all orphaned remote commands run on, every live destination path must hold old or complete new bytes, and the re-run must reproduce the uninterrupted destination. Found and repaired: push published a truncated file when the sender died.",
          "kill lands between system calls; orphan semantics as real ssh (EOF on stdin)"),
  "C14": ("exploration", "§3 C14", "the same simulated `sync -r` command run twice; second run must plan nothing and issue zero mutating calls on either host (trace), trees identical to the nanosecond; first run's reported plan equals the stated quick-check rule",
@@ -25,7 +25,7 @@ CHECKS = {
  "C03": ("exploration", "§3 C03", "N real `copia serve` processes + client actors under a seeded baton scheduler (uniform / sticky / PCT / sequential) over simulated FS, flock and pipes; Wing-Gong-Lowe linearizability search of the recorded history against a sequential CAS map, final tree included; fault batch: one server killed before a seeded file-system call or one of its calls failing with an injected errno, unanswered requests linearized as optional",
          "Every file-system, flock and pipe step of every server is a scheduling point chosen from the run seed, so interleavings such as 'B slips between A's stage and A's rename' are reached thousands of times per second and replay exactly. The oracle is an exact linearizability search (histories <= 24 ops) with the final hub tree as part of the model state. It found four genuine concurrency defects in serve.rs (shared staging file, non-atomic Get, non-atomic List) and, with injected errors, three acknowledgement defects (commit acknowledged although rename failed, delete acknowledged although unlink failed, unreadable file treated as absent and overwritten), all repaired.",
          "shim call = atomic step; advisory flock; atomic rename; clients use the real wire codec"),
- "C10": ("exploration", "§3 C10", "same simulation with invalid Puts and server kills; path invariant evaluated by the kernel after every applied step; Get len/hash/bytes agreement",
+ "C10": ("exploration", "§3 C10", "same simulation with invalid Puts, server kills, injected errno / short writes and a second wave of servers with reused process ids after a kill; path invariant evaluated by the kernel after every applied step; Get len/hash/bytes agreement",
          "The invariant 'each live hub path holds initial content or the complete body of one verified Put addressed to it' is evaluated inside the scheduler after every step that changes the file system, so transient states between two servers' steps are observed, not just end states. Kills are placed before the k-th file-system call of a server.",
          "as C03; kill releases flock and descriptors as the OS does"),
  "C11": ("exploration", "§3 C11", "simulated sessions with hostile path strings against real serve on a file system with sentinels outside ROOT; every server call in the trace is checked for its physical location; differential control session without the refused requests",
@@ -43,7 +43,7 @@ CHECKS = {
  "C06": ("exploration", "§3 C06", "same history simulation; per completed run A==B, archive==tree, immediate second run is a traced no-op; metamorphic re-execution with shifted clocks and swapped root order",
          "Convergence, record exactness and idempotence are checked after every completed run of every history, and the whole history is re-executed under two transformations that must not change any byte.",
          "clash-free trees; as C02"),
- "C07": ("fault_enumeration", "§3 C07", "archive storage-fault enumeration (absent, zero-length, truncation points, garbage, wrong shapes, versions, foreign pair, only .bak/.tmp) on states reached by simulated histories",
+ "C07": ("fault_enumeration", "§3 C07", "archive storage-fault enumeration (absent, zero-length, truncation points, garbage, wrong shapes, versions, foreign pair, only .bak/.tmp; re-pointed root symlink; stale archive of the mirrored pair) on states reached by simulated histories",
          "For each sampled state in which a trusted base would delete something, every fault of the catalogue is applied to a clone of the world and the real bisync must print the safe-mode banner, unlink nothing and keep every version on both sides.",
          "fault = change of the stored archive bytes before the run; as C02"),
  "C08": ("fault_enumeration", "§3 C08", "process kill before every file-system-mutating call of a reference run (all k), recovery runs, and call-order (fsync/rename/record) checks over the recorded trace",
